@@ -18,7 +18,7 @@ ASSUMPTIONS = ['numpy longdouble (80-bit) arithmetic is the reference for the de
 PLAN = {'quick': {'gen': 8}, 'thorough': {'gen': 16, 'tests': 1, 'docs': 1}}
 REQUIRED_BUCKETS = ['in:1x1', 'in:even', 'in:odd', 'in:nonsquare', 'alpha:iso', 'alpha:aniso',
                     'shift0', 'shift+offset', 'unitary:True', 'unitary:False', 'out:given', 'out:none',
-                    'inverse:unitary', 'inverse:nonunitary', 'cache:evict']
+                    'inverse:unitary', 'inverse:nonunitary', 'inverse:general', 'cache:evict']
 REQUIRED_ANCHORS = ['anchor:_dft2_coords', 'anchor:_dft2_matrices', 'probe:dft2', 'probe:idft2']
 REQUIRED_ORACLES = ['dft2=sum', 'idft2=sum', 'roundtrip', 'parseval', 'out=same']
 
@@ -255,6 +255,24 @@ def workload(ctx, lentil):
                   'cached DFT coordinate vectors differ from arange(n)-floor(n/2)', desc)
     if len(seen_keys) > 32:
         ctx.bucket('cache:evict')
+
+    # inverse transforms away from the full-period case (general alpha, unrelated shapes, shifts): the online oracle
+    # decides the unitary ones (same normalisation as the forward transform); non-unitary partial periods are skipped there
+    for i in range(ctx.count(60, 300)):
+        m, n = _shape(rng, hi)
+        M, N = (m, n) if rng.random() < 0.3 else _shape(rng, hi)
+        F = _rand_complex(rng, (m, n))
+        ar = float(np.exp(rng.uniform(np.log(0.002), np.log(0.6)))) * (1 if rng.random() < 0.8 else -1)
+        ac = ar if rng.random() < 0.4 else float(np.exp(rng.uniform(np.log(0.002), np.log(0.6))))
+        shift = (0, 0) if rng.random() < 0.4 else (float(rng.uniform(-4, 4)), float(rng.uniform(-4, 4)))
+        unitary = bool(rng.random() < 0.7)
+        ctx.case({'idft2': [m, n], 'out': [M, N], 'alpha': [ar, ac], 'shift': list(shift), 'unitary': unitary,
+                  'data': probe.fp_array(F)[:12]}, ['inverse:general'], nontrivial=F.size > 1)
+        kw = {} if rng.random() < 0.5 else {'out': np.zeros((M, N), complex)}
+        try:
+            idft2(F, (ar, ac) if ar != ac else ar, shape=(M, N), shift=shift, unitary=unitary, **kw)
+        except Exception:
+            pass
 
     # full-period round trips and Parseval, both flags
     nrt = ctx.count(60, 300)
